@@ -17,9 +17,18 @@ ID = "C17"
 LEVEL = "proof"
 THEOREMS = [
     "load_perm", "loadData_perm", "loadClustered_perm", "kept_iff", "load_ok_iff", "numbering_sorted",
-    "numbering_sorted_clusters", "defaults", "major_lt_minor_rejected", "degenerate_rejected",
+    "numbering_sorted_clusters", "cluster_members", "defaults", "major_lt_minor_rejected", "degenerate_rejected",
 ]
-BUDGET = {"quick": 100, "thorough": 600}
+BUDGET = {"quick": 100, "thorough": 700}
+EXPLANATION = ("All clauses of the property are theorems about the loader model (Model/Loader.lean): order independence for every "
+               "permutation of the rows (load_perm and its load_data / cluster-file variants), the keep/drop criterion on the raw "
+               "table (kept_iff, with load_ok_iff showing its hypothesis is exactly the property's stated domain), rejection of the "
+               "offset mix and of major < minor (degenerate_rejected, major_lt_minor_rejected), numbering 0..n-1 in strictly "
+               "increasing identifier order with one entry per sample in strictly increasing sample order (numbering_sorted, "
+               "numbering_sorted_clusters, cluster_members), and the defaults (defaults).  What the theorems do not cover is "
+               "pandas itself (file parsing, type inference of identifier columns, group-by/sort semantics) and the numba "
+               "likelihood code: the model is tied to them by the correspondence on generated files, and the direct oracle "
+               "re-derives every expected result, including the likelihood rows, from the property text.")
 RULE = ("random input tables (1-4 samples, 1-8 mutations quick; up to 6 x 24 thorough): every (mutation, sample) cell starts "
         "with one row, then per-mutation perturbations (rows missing in some samples, major_cn = 0, duplicated rows, duplicate whose "
         "extra copy has major_cn = 0, triple rows, extra-row/missing-row offset mix, major < minor), optional columns "
@@ -251,7 +260,7 @@ def fixed_cases():
 
 def cases(tier, rnd):
     out = fixed_cases()
-    n = 180 if tier == "quick" else 1400
+    n = 180 if tier == "quick" else 3000
     for _ in range(n):
         out.append(gen_table(rnd, tier))
     for _ in range(10 if tier == "quick" else 60):
